@@ -137,9 +137,15 @@ type wrapEnc struct {
 	inner encode.Encoder
 	name  string
 	r     *rec
+	ready bool // Reset to a non-nil writer since it was created / closed / detached
 }
 
+// poolFault: an encoder object was used in a state the pool discipline forbids (see Pool.lean):
+// Write / Flush / Close without a Reset to the current response since it came out of the pool.
+var poolFault string
+
 func (e *wrapEnc) Reset(w io.Writer) {
+	e.ready = w != nil
 	e.r = nil
 	if rww, ok := w.(*caddyhttp.ResponseWriterWrapper); ok && rww != nil {
 		if h, ok := rww.ResponseWriter.(recHolder); ok {
@@ -151,6 +157,12 @@ func (e *wrapEnc) Reset(w io.Writer) {
 }
 
 func (e *wrapEnc) call(kind string, n int, f func() error) error {
+	if !e.ready && poolFault == "" {
+		poolFault = fmt.Sprintf("%s encoder: %s called on an object that was not Reset to a writer since it was created or put back into the pool", e.name, kind)
+	}
+	if kind == "EC" {
+		e.ready = false
+	}
 	if e.r == nil {
 		return f()
 	}
